@@ -134,6 +134,8 @@ MUTANTS = [
     ("vtd-direct-priority-instead-of-indirect", "C02", "verify_transitive_deps", "mypy/build.py", "            if st.priorities.get(dep) == PRI_INDIRECT:\n                dep_scc_id", "            if st.priorities.get(dep) != PRI_INDIRECT:\n                dep_scc_id", "violation|undecided"),
     ("H-vtd-checks-unchanged-modules-too", "C02", "verify_transitive_deps|find_stale", "mypy/build.py", "        if st.trans_dep_hash == st.meta.trans_dep_hash:\n            # Import graph unchanged, skip this module.\n            continue", "        if False:\n            continue", "pass"),
     ("H-stale-sccs-missing-dependency-counts-as-stale", "C02", "find_stale_sccs", "mypy/build.py", "                if dep in graph and graph[dep].interface_hash != graph[id].dep_hashes[dep]:", "                if dep not in graph or graph[dep].interface_hash != graph[id].dep_hashes[dep]:", "pass"),
+    ("arity-star-into-keyword-only-accepted", "C12", "arity", "mypy/checkexpr.py", "                and actual_kinds[mapped_args[0]] not in [nodes.ARG_NAMED, nodes.ARG_STAR2]", "                and actual_kinds[mapped_args[0]] == nodes.ARG_POS", "violation"),
+    ("H-arity-positional-kinds-listed", "C12", "arity", "mypy/checkexpr.py", "                and actual_kinds[mapped_args[0]] not in [nodes.ARG_NAMED, nodes.ARG_STAR2]", "                and actual_kinds[mapped_args[0]] in [nodes.ARG_POS, nodes.ARG_STAR, nodes.ARG_OPT, nodes.ARG_NAMED_OPT]", "pass"),
     ("enabled-parent-check-dropped", "C13", "is_error_code_enabled", "mypy/errors.py", "elif error_code.sub_code_of is not None and error_code.sub_code_of in current_mod_disabled:\n            return False", "elif error_code.sub_code_of is not None and error_code.sub_code_of in current_mod_enabled:\n            return False", "violation"),
 ]
 
